@@ -442,10 +442,11 @@ func TestHPKE(t *testing.T) {
 		pt := drawPlaintext(rt)
 		info := gen.BytesOrNil(rt, "info", 128)
 		n := checkHPKE(rt, c, pt, info)
-		class := fmt.Sprintf("%s/%s/%s/%s/%s/%s", c.kem.name, c.kdf.name, c.aead.name, c.variant, c.route, infoClass(info))
+		class := fmt.Sprintf("%s/%s/%s/%s/%s", c.kem.name, c.kdf.name, c.aead.name, c.variant, c.route)
+		evid.Add("info_"+infoClass(info), 1)
+		evid.Add("pt_"+gen.LenClass(len(pt)), 1)
 		evid.Case(class, true, evid.NewH().S(c.String()).B(pt).B(info).S(infoClass(info)).Sum(), func() any {
 			return map[string]any{"case": c.String(), "pt": gen.Hex(pt), "info": gen.Hex(info), "candidates": n}
 		})
 	})
 }
-
